@@ -18,42 +18,63 @@ def shw (s : Str) : String :=
   String.ofList (s.flatMap fun c =>
     if c.toNat < 32 || c == ' ' || c == '\\' || c.toNat == 127 then ("\\x" ++ String.ofList (Nat.toDigits 16 c.toNat)).toList else [c])
 
-def fnum? (t : String) : Option FNum :=
-  if t = "nan" then some .nan else if t = "inf" then some .pinf else if t = "-inf" then some .ninf
-  else match t.splitOn "/" with
-    | [a, b] => do let n ← a.toInt?; let d ← b.toNat?; pure (.fin n d)
+def fl? (t : String) : Option Fl :=
+  if t = "nan" then some .nan else if t = "inf" then some (.inf false) else if t = "-inf" then some (.inf true)
+  else
+    let (neg, r) := if t.startsWith "-" then (true, (t.drop 1).toString) else (false, t)
+    match r.splitOn "/" with
+    | [a, b] => do let n ← a.toNat?; let d ← b.toNat?; pure (.fin neg n d)
     | _ => none
 
+def nats? (s : String) : Option (List Nat) := (s.splitOn ".").mapM (·.toNat?)
+def off? (t : String) : Option (Option Int) := if t = "~" then some none else t.toInt?.map some
+
+/-- value tokens: `i:<int>` `b:T|F` `s:<hex>` `n` (None / an object of no modelled class),
+    `f:<hex repr>:<ratio>`, `D:y.m.d`, `DT:y.m.d.h.mi.s:<offset minutes|~>`, `T:h.mi.s:<offset|~>` -/
 def val? (t : String) : Option PyVal :=
   match t.splitOn ":" with
   | ["i", n] => n.toInt?.map .int
   | ["b", b] => (bool? b).map .bool
   | ["s", h] => (str? h).map .str
-  | ["f", h, x] => do let r ← str? h; let x ← fnum? x; pure (.float r x)
-  | ["d", c, a, h] => do
-      let cls ← (match c with | "D" => some DtClass.date | "DT" => some .datetime | "T" => some .time | _ => none)
-      let aw ← (match a with | "A" => some true | "N" => some false | _ => none)
-      let iso ← str? h
-      pure (.dt cls aw iso)
+  | ["f", _, x] => (fl? x).map .float
+  | ["D", d] => match nats? d with
+      | some [y, m, dd] => some (.date ⟨y, m, dd⟩)
+      | _ => none
+  | ["DT", d, o] => match nats? d, off? o with
+      | some [y, m, dd, h, mi, sec], some off => some (.datetime ⟨y, m, dd⟩ ⟨h, mi, sec⟩ off)
+      | _, _ => none
+  | ["T", d, o] => match nats? d, off? o with
+      | some [h, mi, sec], some off => some (.time ⟨h, mi, sec⟩ off)
+      | _, _ => none
   | ["n"] => some .none
-  | ["o", h] => (str? h).map .other
   | _ => none
 
-def fnumTok : FNum → String
-  | .fin n d => s!"{n}/{d}"
-  | .pinf => "inf" | .ninf => "-inf" | .nan => "nan"
+/-- the `repr` a float token carries: `(value, repr text)` -/
+def floatRepr? (t : String) : Option (Fl × Str) :=
+  match t.splitOn ":" with
+  | ["f", h, x] => do let r ← str? h; let v ← fl? x; pure (v, r)
+  | _ => none
+
+def flTok : Fl → String
+  | .fin n a b => s!"{if n then "-" else ""}{a}/{b}"
+  | .inf n => if n then "-inf" else "inf"
+  | .nan => "nan"
+
+def offTok : Option Int → String
+  | none => "~"
+  | some o => toString o
 
 def valTok : PyVal → String
   | .int n => s!"i:{n}"
   | .bool b => if b then "b:T" else "b:F"
   | .str s => "s:" ++ strTok (String.ofList s)
-  | .float r x => "f:" ++ strTok (String.ofList r) ++ ":" ++ fnumTok x
-  | .dt c a i => "d:" ++ (match c with | .date => "D" | .datetime => "DT" | .time => "T") ++ ":"
-      ++ (if a then "A" else "N") ++ ":" ++ strTok (String.ofList i)
+  | .float x => "f:" ++ flTok x
+  | .date d => s!"D:{d.y}.{d.m}.{d.d}"
+  | .datetime d t o => s!"DT:{d.y}.{d.m}.{d.d}.{t.h}.{t.mi}.{t.s}:{offTok o}"
+  | .time t o => s!"T:{t.h}.{t.mi}.{t.s}:{offTok o}"
   | .none => "n"
-  | .other t => "o:" ++ strTok (String.ofList t)
 
-def rowOf (name : Str) : Option TypeRow := Gen.C06Types.table.find? (·.name == name)
+def rowOf (name : Str) : Option TypeRow := table.row? name
 
 /-- `arg <in|out> <name> <type> <hasRange> <min|~> <max|~> <allowed ~|@|hex,hex>` -/
 def argDecl? : List String → Option ArgDecl
@@ -66,7 +87,8 @@ def argDecl? : List String → Option ArgDecl
       let mx ← optStr? mx
       let al ← (if al = "~" then some none else if al = "@" then some (some [])
                 else (al.splitOn ",").mapM str? |>.map some)
-      pure { name := name, isIn := isIn, var := { row := row, min := mn, max := mx, hasRange := hr, allowed := al } }
+      pure { name := name, isIn := isIn,
+             var := { row := row, decl := { range := if hr then some (mn, mx) else none, allowed := al } } }
   | _ => none
 
 /-- exception info: `exc <cls> <mro,...>` or `exc ~` -/
@@ -126,18 +148,35 @@ partial def xmlShow : Xml → String
   | .node t x c => "<" ++ shw t ++ (match x with | some s => " '" ++ shw s ++ "'" | none => "") ++
       (if c.isEmpty then "" else " " ++ " ".intercalate (c.map xmlShow)) ++ ">"
 
-/-- oracle tables from `pf` / `pd` lines -/
+/-- the float table of a case: what Python's `repr` gives for every float in play (from the value
+    tokens) and what `float(text)` gives for every text in play (`pf` lines) -/
 structure OTab where
-  pf : List (Str × Option PyVal) := []
-  pd : List (Str × Option PyVal) := []
+  reprs : List (Fl × Str) := []
+  parses : List (Str × Option Fl) := []
 
-def OTab.oracles (t : OTab) : Oracles :=
-  { parseFloat := fun s => t.pf.lookup s, parseDt := fun s => t.pd.lookup s }
+def OTab.oracles (t : OTab) : Oracles where
+  repr x := match t.reprs.find? (·.1 == x) with
+    | some p => p.2
+    | none => "?undeclared-float".toList
+  parse s := match t.parses.find? (·.1 == s) with
+    | some p => p.2
+    | none => none
+  le := Fl.le
+  eq := Fl.eq
 
-def oracleLine? : List String → Option (Str × Option PyVal)
+def OTab.addRepr (t : OTab) (tok : String) : OTab :=
+  match floatRepr? tok with
+  | some p => { t with reprs := t.reprs ++ [p] }
+  | none => t
+
+/-- `pf <text> <float token|!>`: `float(text)` -/
+def OTab.addParse? (t : OTab) : List String → Option OTab
   | [text, r] => do
       let text ← str? text
-      if r = "!" then pure (text, none) else do let v ← val? r; pure (text, some v)
+      if r = "!" then pure { t with parses := t.parses ++ [(text, none)] }
+      else do
+        let p ← floatRepr? r
+        pure { t with parses := t.parses ++ [(text, some p.1)], reprs := t.reprs ++ [p] }
   | _ => none
 
 end Upnp.C06.Wire
